@@ -115,7 +115,7 @@ Definition znth (i : Z) (c : list Q) : Q := if i <? 0 then 0%Q else nth (Z.to_na
 Lemma znth_nil i : znth i [] = 0%Q.
 Proof. unfold znth. destruct (i <? 0); [reflexivity|]. destruct (Z.to_nat i); reflexivity. Qed.
 
-(* version with explicit length hypothesis *)
+(* the unit vector and the coefficient list have equal lengths *)
 Lemma unitb_wsum : forall l i c, length c = length l -> unitb i l = true -> (wsum c l == znth i c)%Q.
 Proof.
   induction l as [|x r IH]; intros i c L H.
